@@ -13,11 +13,26 @@ Proved here
 * for all inputs, about the model: a free-form payload in Go's printing form comes back exactly
   (`payload_exact`), any payload comes back with the same members up to order when it has no duplicate member
   (`payload_members_kept`); the members of a Go map survive (`go_map_members_kept`).
-The statement for whole documents (`NFmeta K j → norm K j ≈ j`) is decided per run by the oracle of the
-harness on generated normal-form documents; its failures on the unchanged tree are the two known findings.
+* for WHOLE DOCUMENTS of every kind (`round_trip_up_to_member_order`, from `Codec/Perm.lean`, ~900 lines): the
+  codec does not depend on the order in which the members of an object are written, at any depth:
+
+      norm K c = ok c  →  Tidy c  →  Tidy j  →  Eqv c j  →  norm K j = ok c
+
+  i.e. if ONE ordering `c` of a document is reproduced exactly by decode+encode, then every reordering `j` of it
+  decodes and encodes to `c`: the round trip loses nothing but member order (which JSON values do not have).
+  `Tidy`: no object with two members of the same name and no member name that is a case variant of a keyword (two
+  such names would be read into the same Go field, and then order does matter). With C07 (`Clean` outputs are
+  fixed points) this gives `reorderings_of_outputs_round_trip`: every reordering of every clean output of the
+  codec round-trips to that output.
+Which documents have such an ordering `c` — the syntactic normal form of the property: required members present,
+no null members, no empty optional strings/arrays/objects, no explicit defaults — is decided per run by the oracle
+of the harness on generated normal-form documents; its failures on the unchanged tree are the two known findings.
 -/
 import SpecModel.Codec.Lemmas
 import SpecModel.Codec.SideConditions
+import SpecModel.Codec.Perm
+import SpecModel.Codec.Fuel
+import SpecModel.Props.C07
 
 namespace SpecModel.Props.C01
 open SpecModel SpecModel.Codec
@@ -83,5 +98,48 @@ theorem go_map_members_kept (ms : List (String × Json)) (hn : (ms.map (·.1)).N
     simp
 
 example : (toGoMap [("b", .num 1), ("a", .num 2)]).map (·.1) = ["a", "b"] := by decide
+
+
+/-! ### Whole documents: the round trip is lossless up to member order -/
+
+/-- **If one ordering of a document is reproduced by decode+encode, every reordering of it (of the members of any
+of its objects, at any depth) decodes and encodes to that ordering.** -/
+theorem round_trip_up_to_member_order (k : String) (c j : Json) (hfix : norm k c = .ok c) (hc : Tidy c)
+    (hj : Tidy j) (he : Eqv c j) : norm k j = .ok c :=
+  norm_of_normF (normF_eqv _ _ _ _ he hc hj c hfix)
+
+/-- more generally, reordering the input never changes a successful result -/
+theorem result_independent_of_member_order (k : String) (c j r : Json) (h : norm k c = .ok r) (hc : Tidy c)
+    (hj : Tidy j) (he : Eqv c j) : norm k j = .ok r :=
+  norm_of_normF (normF_eqv _ _ _ _ he hc hj r h)
+
+/-- with C06 and C07: every reordering of a clean output of the codec round-trips to that output -/
+theorem reorderings_of_outputs_round_trip (k : String) (j₀ c j : Json) (h : norm k j₀ = .ok c) (hclean : Clean c)
+    (hj : Tidy j) (he : Eqv c j) : norm k j = .ok c :=
+  round_trip_up_to_member_order k c j (C07.encoding_is_idempotent k j₀ c h hclean)
+    (tidy_of_clean_nd c hclean (C06.encoding_has_no_duplicate_member k j₀ c h)) hj he
+
+/-- non-vacuity: a reordering, at two depths, of a document -/
+example : Eqv (.obj [("a", .num 1), ("b", .obj [("p", .null), ("q", .str "s")])])
+              (.obj [("b", .obj [("q", .str "s"), ("p", .null)]), ("a", .num 1)]) := by
+  apply eqv_obj_intro
+  · intro m hm
+    simp only [List.mem_cons, List.not_mem_nil, or_false] at hm
+    rcases hm with rfl | rfl
+    · exact ⟨.num 1, by simp, eqv_num 1⟩
+    · refine ⟨.obj [("q", .str "s"), ("p", .null)], by simp, ?_⟩
+      apply eqv_obj_intro
+      · intro m hm
+        simp only [List.mem_cons, List.not_mem_nil, or_false] at hm
+        rcases hm with rfl | rfl
+        · exact ⟨.null, by simp, eqv_null⟩
+        · exact ⟨.str "s", by simp, eqv_str "s"⟩
+      · intro k hk; simp only [keysOf, List.map_cons, List.map_nil, List.mem_cons, List.not_mem_nil, or_false] at hk ⊢
+        rcases hk with h | h <;> simp [h]
+  · intro k hk; simp only [keysOf, List.map_cons, List.map_nil, List.mem_cons, List.not_mem_nil, or_false] at hk ⊢
+    rcases hk with h | h <;> simp [h]
+
+/-- `Eqv` is not trivially true: arrays keep their order -/
+example : ¬ Eqv (.arr [.num 1, .num 2]) (.arr [.num 2, .num 1]) := eqv_arr_swap_false
 
 end SpecModel.Props.C01
